@@ -631,6 +631,44 @@ def permuteGo (slots : List (Option Block)) : List Nat → List Block
 def permuteBlocks (bs : List Block) (order : List Nat) : List Block :=
   permuteGo ((sortBlocks bs).map some) order
 
+/-- what `Reader::read_stream_content` makes of the deferred stream `id` (a stream whose Length
+could not be resolved while parsing): the content is read through the Length that is known now;
+`none`: the stream stays as it is (no usable Length) -/
+def completed (buf : Bytes) (os : LObjects) (id : ObjId) : Option LObj :=
+  match os.get id with
+  | some (.pending d start) =>
+    (match ((d.get LENGTH).bind (derefL os DEREF_LIMIT)).bind Obj.asInt with
+     | some l =>
+       if l < 0 then none
+       else if start + l.toNat > buf.length then none
+       else
+         let c := (buf.drop start).take l.toNat
+         some (.plain (.stream (d.set LENGTH (.int c.length)) c))
+     | none => none)
+  | _ => none
+
+def completeOne (buf : Bytes) (os : LObjects) (id : ObjId) : LObjects :=
+  match completed buf os id with
+  | some v => os.insert id v
+  | none => os
+
+/-- ids of the deferred streams, in the order the sequential reader records them -/
+def pendingIds (os : LObjects) : List ObjId :=
+  os.filterMap fun (p : ObjId × LObj) => match p.2 with | .pending _ _ => some p.1 | .plain _ => none
+
+/-- hook H2 (`verif_hooks::reorder_zero_length`): ascending ids rotated by `k`, reversed when `k` is odd -/
+def insertId (a : ObjId) : List ObjId → List ObjId
+  | [] => [a]
+  | b :: r => if idLe a b then a :: b :: r else b :: insertId a r
+
+def sortIds (l : List ObjId) : List ObjId := l.foldr insertId []
+
+def reorderZero (k : Nat) (ids : List ObjId) : List ObjId :=
+  let s := sortIds ids
+  let m := if s.isEmpty then 0 else k % s.length
+  let r := s.drop m ++ s.take m              -- `rotate_left(m)`
+  if k % 2 = 1 then r.reverse else r
+
 /-- one step of the object-loading pass of `Reader::read`: read the object of an in-use entry
 (container objects also contribute a block of members) -/
 def loadStep (buf : Bytes) (x : XTable) (nEntries : Nat) (acc : Outcome (LObjects × List Block)) (e : Nat × XEntry) :
@@ -656,9 +694,10 @@ def loadStep (buf : Bytes) (x : XTable) (nEntries : Nat) (acc : Outcome (LObject
      | .compressed _ _ => .ok (os, fromStm))
   | o => o
 
-/-- `Reader::read`; `arr` is the schedule: it maps the blocks in the order the sequential reader
-appends them (ascending cross-reference key) to the order in which they arrive -/
-def loadDocWith (arr : List Block → List Block) (file : Bytes) : Outcome Loaded :=
+/-- `Reader::read`; `arr` and `arr2` are the schedule: they map the object-stream blocks, and the
+ids of the deferred streams, from the order in which the sequential reader records them (ascending
+cross-reference key) to the order in which the worker threads record them -/
+def loadDocWith (arr : List Block → List Block) (arr2 : List ObjId → List ObjId) (file : Bytes) : Outcome Loaded :=
   let offset := match findFrom PDF_KW (file.length + 1) file 0 with | some i => i | none => 0
   let buf := file.drop offset
   match pHeader buf with
@@ -699,29 +738,24 @@ def loadDocWith (arr : List Block → List Block) (file : Bytes) : Outcome Loade
             -- object-stream members never replace an object already loaded
             let arrived := arr fromStm
             let os1 := mergeBlocksX x os arrived
-            -- zero-length streams: read the content through the (now known) Length
-            let fin := os1.map fun (p : ObjId × LObj) =>
+            -- zero-length streams: read the content through the (now known) Length, one stream after
+            -- the other in the order in which their ids were recorded
+            let os2 := (arr2 (pendingIds os1)).foldl (completeOne buf) os1
+            let fin := os2.map fun (p : ObjId × LObj) =>
               match p.2 with
-              | .plain (.stream d c) =>
-                if c.isEmpty && !(Dict.getTypeIs d OBJSTM) then (p.1, Obj.stream d c) else (p.1, Obj.stream d c)
               | .plain o => (p.1, o)
-              | .pending d start =>
-                let len := ((d.get LENGTH).bind (derefL os1 DEREF_LIMIT)).bind Obj.asInt
-                (match len with
-                 | some l =>
-                   if l < 0 then (p.1, Obj.stream d [])
-                   else if start + l.toNat > buf.length then (p.1, Obj.stream d [])
-                   else
-                     let c := (buf.drop start).take l.toNat
-                     (p.1, Obj.stream (d.set LENGTH (.int c.length)) c)
-                 | none => (p.1, Obj.stream d []))
+              | .pending d _ => (p.1, Obj.stream d [])
             let objects := fin.foldr (fun (p : ObjId × Obj) acc => insertSortedO p.1 p.2 acc) []
             .ok { version := version, binaryMark := mark, trailer := tr, objects := objects,
                   maxId := size - 1, xrefStart := xs }
 
-/-- `order = none`: the sequential order; `some p`: the arrival order chosen through hook H1 -/
-def loadDocOrd (order : Option (List Nat)) (file : Bytes) : Outcome Loaded :=
-  loadDocWith (match order with | none => id | some p => fun bs => permuteBlocks bs p) file
+/-- `order = none`: the sequential order; `some p`: the arrival order chosen through hook H1;
+`zero = some k`: the completion order chosen through hook H2 -/
+def loadDocOrd2 (order : Option (List Nat)) (zero : Option Nat) (file : Bytes) : Outcome Loaded :=
+  loadDocWith (match order with | none => id | some p => fun bs => permuteBlocks bs p)
+    (match zero with | none => id | some k => reorderZero k) file
+
+def loadDocOrd (order : Option (List Nat)) (file : Bytes) : Outcome Loaded := loadDocOrd2 order none file
 
 def loadDoc (file : Bytes) : Outcome Loaded := loadDocOrd none file
 
